@@ -277,6 +277,29 @@ impl<'ast> Visit<'ast> for Walker {
         visit::visit_expr_if(self, i);
     }
 
+    fn visit_expr_struct(&mut self, st: &'ast syn::ExprStruct) {
+        for f in &st.fields {
+            if let syn::Member::Named(name) = &f.member {
+                let r = self.translate(&f.expr);
+                if r.is_ok() {
+                    self.push("field", name.to_string(), r, f.to_token_stream().to_string());
+                }
+            }
+        }
+        visit::visit_expr_struct(self, st);
+    }
+
+    fn visit_expr_method_call(&mut self, m: &'ast syn::ExprMethodCall) {
+        // builder-style configuration calls: record their (single) argument
+        const BUILDER: [&str; 5] = ["length_field_length", "max_frame_length", "length_adjustment", "set_max_frame_length", "length_field_offset"];
+        let name = m.method.to_string();
+        if BUILDER.contains(&name.as_str()) && m.args.len() == 1 {
+            let r = self.translate(&m.args[0]);
+            self.push("arg", name, r, m.to_token_stream().to_string().chars().rev().take(60).collect::<String>().chars().rev().collect());
+        }
+        visit::visit_expr_method_call(self, m);
+    }
+
     fn visit_expr_while(&mut self, w: &'ast syn::ExprWhile) {
         if !matches!(&*w.cond, Expr::Let(_)) {
             let r = self.translate(&w.cond);
